@@ -1,6 +1,9 @@
 /* h_c19srv.c -- C19, server side: the real static handle_raw_login of src/iodined.c reached by
- * including the file (main renamed).  Linked with -Wl,--wrap=sendto,--wrap=time: the wrapper
- * records the raw datagram the server answers with. */
+ * including the file (main renamed).  Linked with -Wl,--wrap=sendto,--wrap=time,--wrap=rand: the
+ * wrapper records the datagram the server answers with.
+ * SV: the real handle_null_request on a version query ('V' branch: users[].seed = rand() with the
+ * scripted rand() value, send_version_response) and then on a login query carrying the given 16
+ * hash bytes; the DNS answers are decoded with the repository's dns_decode. */
 #include "hlib.h"
 #define main iodined_main
 #include "iodined.c"	/* found through -I <snapshot>/src */
@@ -23,6 +26,147 @@ ssize_t __wrap_sendto(int fd, const void *buf, size_t len, int flags, const stru
 }
 
 static int srv_ready;
+
+int __wrap_rand(void);
+int __real_rand(void);
+static int rand_scripted, rand_value, rand_calls;
+int __wrap_rand(void)
+{
+	rand_calls++;
+	return rand_scripted ? rand_value : __real_rand();
+}
+
+static char srv_topdomain[] = "t.example.com";
+
+/* one query "<cmd><Base32 of data>.<topdomain>" of the given type through handle_null_request;
+ * returns the length of the answer's payload decoded into out (TXT: 't' + Base32 undone), -1
+ * when nothing (or not exactly one datagram) was sent, -2 when the answer does not decode */
+static int srv_query(char cmd, const unsigned char *data, size_t dlen, int qtype, unsigned short id,
+		     unsigned char *out, size_t outlen)
+{
+	struct query q, a;
+	struct sockaddr_in *sin;
+	struct dnsfd fds;
+	char enc[256], buf[4096];
+	size_t space = sizeof(enc) - 1;
+	int n;
+
+	memset(&q, 0, sizeof(q));
+	n = base32_ops.encode(enc, &space, data, dlen);	/* returns the number of characters */
+	enc[n] = 0;
+	snprintf(q.name, sizeof(q.name), "%c%s.%s", cmd, enc, srv_topdomain);
+	q.type = qtype;
+	q.id = id;
+	sin = (struct sockaddr_in *)&q.from;
+	sin->sin_family = AF_INET;
+	sin->sin_port = htons(4711);
+	sin->sin_addr.s_addr = inet_addr("192.0.2.7");
+	q.fromlen = sizeof(*sin);
+	memset(&fds, 0, sizeof(fds));
+	fds.v4fd = 10;
+	fds.v6fd = -1;
+	sent_len = 0;
+	sent_count = 0;
+	handle_null_request(11, 10, &fds, &q, query_datalen(q.name, topdomain));
+	if (sent_count != 1)
+		return -1;
+	memset(&a, 0, sizeof(a));
+	n = dns_decode(buf, sizeof(buf), &a, QR_ANSWER, (char *)sent, sent_len);
+	if (n <= 0 || a.id != id)
+		return -2;
+	if (qtype == T_TXT) {
+		size_t ol = outlen;
+		if (buf[0] != 't' && buf[0] != 'T')
+			return -2;
+		return base32_ops.decode(out, &ol, buf + 1, n - 1);
+	}
+	if ((size_t)n > outlen)
+		return -2;
+	memcpy(out, buf, n);
+	return n;
+}
+
+/* SV passhex rand uid kind loginhex -- rand: the value rand() returns (decimal, 32-bit pattern of
+ * the int); uid: the slot the version handler is to find free (lower slots are made busy);
+ * kind N / T: NULL or TXT queries; loginhex: the 16 hash bytes of the login message */
+static void do_version_login(char *args)
+{
+	unsigned char pw[64], hash[64], msg[32], out[256];
+	size_t n, hl;
+	char *sp;
+	uint32_t r;
+	int uid, i, qtype, len;
+
+	if (!srv_ready) {
+		created_users = init_users(inet_addr("10.9.0.1"), 27);
+		srv_ready = 1;
+	}
+	topdomain = srv_topdomain;
+	my_ip = inet_addr("10.9.0.1");
+	my_mtu = 1130;
+	netmask = 27;
+	n = unhex(args, in);
+	memcpy(pw, in, n > 32 ? 32 : n);
+	memset(password, 0, sizeof(password));
+	memcpy(password, pw, n > 32 ? 32 : n);
+	sp = strchr(args, ' ');
+	if (!sp) { printf("BADCASE\n"); return; }
+	r = (uint32_t)strtoul(sp + 1, &sp, 10);
+	uid = (int)strtol(sp, &sp, 10);
+	while (*sp == ' ') sp++;
+	if ((*sp != 'N' && *sp != 'T') || uid < 0 || uid >= created_users) { printf("BADCASE\n"); return; }
+	qtype = *sp == 'T' ? T_TXT : T_NULL;
+	sp++;
+	while (*sp == ' ') sp++;
+	hl = unhex(sp, in);
+	if (hl > 16) hl = 16;
+	memset(hash, 0, sizeof(hash));
+	memcpy(hash, in, hl);
+
+	for (i = 0; i < created_users; i++) {
+		users[i].active = i < uid;
+		users[i].disabled = 0;
+		users[i].last_pkt = time(NULL);
+		users[i].seed = 0x5a5a5a5a;
+		users[i].authenticated = 0;
+	}
+	/* client.c send_version: version, 2 CMC bytes */
+	msg[0] = (PROTOCOL_VERSION >> 24) & 0xff;
+	msg[1] = (PROTOCOL_VERSION >> 16) & 0xff;
+	msg[2] = (PROTOCOL_VERSION >> 8) & 0xff;
+	msg[3] = PROTOCOL_VERSION & 0xff;
+	msg[4] = 0x12;
+	msg[5] = 0x34;
+	rand_scripted = 1;
+	rand_value = (int)r;
+	rand_calls = 0;
+	len = srv_query('v', msg, 6, qtype, 0x1001, out, sizeof(out));
+	rand_scripted = 0;
+	if (len < 0) {
+		printf("NO-VERSION-ANSWER %d count=%d\n", len, sent_count);
+		return;
+	}
+	printf("reply=");
+	puthex(out, len);
+	printf(" seed=%u rand_calls=%d", (unsigned int)users[uid].seed, rand_calls);
+	/* client.c send_login: userid, 16 hash bytes, 2 CMC bytes */
+	msg[0] = (unsigned char)uid;
+	memcpy(msg + 1, hash, 16);
+	msg[17] = 0x12;
+	msg[18] = 0x35;
+	len = srv_query('l', msg, 19, qtype, 0x1002, out, sizeof(out));
+	if (len < 0)
+		printf(" login=NO-ANSWER %d\n", len);
+	else if (len == 4 && !memcmp(out, "LNAK", 4))
+		printf(" login=LNAK auth=%d\n", users[uid].authenticated);
+	else if (len >= 7 && isdigit(out[0]) && users[uid].authenticated)
+		printf(" login=ACCEPT auth=1\n");
+	else {
+		printf(" login=OTHER ");
+		puthex(out, len);
+		printf(" auth=%d\n", users[uid].authenticated);
+	}
+}
 
 /* SR passhex seed pkthex -- pkthex is the payload of a raw login datagram (after the header) */
 static void do_raw_login(char *args)
@@ -89,8 +233,51 @@ static void do_raw_login(char *args)
 	free(pkt);
 }
 
+/* SN msghex kind -- a version message (version bytes + CMC bytes) that does not carry the
+ * server's version: the answer must be VNAK + the server's version, and rand() is not called */
+static void do_version_nak(char *args)
+{
+	unsigned char msg[64], out[256];
+	size_t n;
+	char *sp;
+	int i, len;
+
+	if (!srv_ready) {
+		created_users = init_users(inet_addr("10.9.0.1"), 27);
+		srv_ready = 1;
+	}
+	topdomain = srv_topdomain;
+	n = unhex(args, in);
+	sp = strchr(args, ' ');
+	if (!sp || n == 0 || n > 40 || (sp[1] != 'N' && sp[1] != 'T')) { printf("BADCASE\n"); return; }
+	memcpy(msg, in, n);
+	for (i = 0; i < created_users; i++) {
+		users[i].active = 0;
+		users[i].disabled = 0;
+		users[i].seed = 0x5a5a5a5a;
+	}
+	rand_scripted = 1;
+	rand_value = 0x11223344;
+	rand_calls = 0;
+	len = srv_query('v', msg, n, sp[1] == 'T' ? T_TXT : T_NULL, 0x1003, out, sizeof(out));
+	rand_scripted = 0;
+	if (len < 0) {
+		printf("NO-VERSION-ANSWER %d count=%d\n", len, sent_count);
+		return;
+	}
+	if (len >= 4 && !memcmp(out, "VACK", 4)) {
+		printf("VERSION-MATCHES\n");
+		return;
+	}
+	printf("reply=");
+	puthex(out, len);
+	printf(" rand_calls=%d\n", rand_calls);
+}
+
 int handle_line(char *l)
 {
 	if (!strncmp(l, "SR ", 3)) { do_raw_login(l + 3); return 1; }
+	if (!strncmp(l, "SV ", 3)) { do_version_login(l + 3); return 1; }
+	if (!strncmp(l, "SN ", 3)) { do_version_nak(l + 3); return 1; }
 	return 0;
 }
